@@ -230,36 +230,9 @@ def record_traces(ctx, nruns, nsteps, nb):
 
 
 def validate_traces(ctx, events, nb, what):
-    for i, e in enumerate(events):
-        if "offlattice" in json.dumps(e):
-            ctx.violation("trace-offlattice", "%s: event %d carries a value that is not on the lattice the specification prescribes: %s" % (what, i + 1, json.dumps(e)),
-                          {"events": events[max(0, i - 6):i + 1]})
-            return False
-    path = os.path.join(ctx.workdir, "abf_trace.ndjson")
-    vlib.write_ndjson(path, events)
-    r = vlib.tlc("AbfTrace", "AbfTrace.cfg", workers=1, env={"TRACE": path, "NBINS": nb}, timeout=900)
-    vlib.require_ok(r, "AbfTrace")
-    ctx.states += r.distinct
-    ctx.transitions += r.generated
-    ctx.cmds.append(r.cmd)
-    nexec = sum(1 for e in events if e["e"] == "Reset")
-    # accepted iff NotAccepted is violated (the whole log was consumed)
-    m = re.search(r'"MAXL", (\d+)', r.out)
-    if r.violation == "NotAccepted":
-        ctx.traces += nexec
-        ctx.evaluations += len(events)
-        vlib.log("%s: %d recorded executions (%d events) accepted by AbfTrace" % (what, nexec, len(events)))
-        if '"DEV"' in r.out:
-            ctx.violation("zero-total-subtract", "recorded execution needs the ZeroTotal deviation", {"note": "see AbfTrace DEV output"})
-        return True
-    # rejected: find the longest matched prefix
-    l = int(m.group(1)) if m else None
-    ml = [int(x) for x in re.findall(r'"MAXL", (\d+)', r.out)]
-    l = max(ml) if ml else 0
-    bad = events[l - 1] if 0 < l <= len(events) else None
-    ctx.violation("trace-rejected", "%s: event %d is not a step of the specification: %s" % (what, l, json.dumps(bad)),
-                  {"events": events[max(0, l - 6):l + 1], "index": l, "tlc": vlib.counterexample(r)[-3000:]})
-    return False
+    r = vlib.validate_trace(ctx, "AbfTrace", "AbfTrace.cfg", events, what)
+    if r is not None and '"DEV"' in r.out:
+        ctx.violation("zero-total-subtract", "recorded execution needs the ZeroTotal deviation", {"note": "see AbfTrace DEV output"})
 
 
 def run(ctx):
